@@ -806,14 +806,34 @@ func (x *c01Ctx) wiringD(d *c01Dir) {
 func (x *c01Ctx) keyNameChoiceG(g *cGraph, cons, pos string, v CV, pre []cgLeaf, choices []c01Choice, what string) {
 	r := x.r
 	type leaf struct {
-		src   string
-		conds []cgCond
+		src     string
+		conds   []cgCond
+		empties []CV // values known to be zero on this choice (earlier arguments of cmp.Or)
 	}
 	var leaves []leaf
 	seen := map[CV]bool{}
+	var curEmpties []CV
 	var walk func(v CV, conds []cgCond, d int)
 	walk = func(v CV, conds []cgCond, d int) {
 		v = g.deep(v)
+		// cmp.Or(a, b, …): the first non-zero argument — b is chosen only when a is zero
+		if c, ok := v.V.(*ssa.Call); ok && d < 8 {
+			if obj := calleeObj(c); obj != nil && obj.Pkg() != nil && obj.Pkg().Path() == "cmp" && obj.Name() == "Or" && len(c.Call.Args) == 1 {
+				if sl, ok := g.deep(CV{v.C, c.Call.Args[0]}).V.(*ssa.Slice); ok {
+					if al, ok := sl.X.(*ssa.Alloc); ok {
+						if elems, ok := g.arrayElemsRaw(CV{v.C, al}); ok {
+							saved := curEmpties
+							for _, e := range elems {
+								walk(e, conds, d+1)
+								curEmpties = append(append([]CV{}, curEmpties...), g.deep(e))
+							}
+							curEmpties = saved
+							return
+						}
+					}
+				}
+			}
+		}
 		if edges, ok := g.phiEdges(v); ok && d < 8 && !seen[v] {
 			seen[v] = true
 			j := g.joinOf(v)
@@ -831,7 +851,7 @@ func (x *c01Ctx) keyNameChoiceG(g *cGraph, cons, pos string, v CV, pre []cgLeaf,
 		if lv, ok := g.valuesAt(v); ok && len(lv) > 1 && d < 8 {
 			for _, l := range lv {
 				if l.Zero {
-					leaves = append(leaves, leaf{"const:", append(l.Conds, conds...)})
+					leaves = append(leaves, leaf{"const:", append(l.Conds, conds...), curEmpties})
 				} else {
 					walk(l.Val, append(l.Conds, conds...), d+1)
 				}
@@ -853,19 +873,19 @@ func (x *c01Ctx) keyNameChoiceG(g *cGraph, cons, pos string, v CV, pre []cgLeaf,
 			}
 		}
 		if s, ok := g.constString(v); ok {
-			leaves = append(leaves, leaf{"const:" + s, conds})
+			leaves = append(leaves, leaf{"const:" + s, conds, curEmpties})
 			return
 		}
 		if id, _, ok := c01AnyField(v.V); ok {
-			leaves = append(leaves, leaf{typeShort(id.Type) + "." + id.Field, conds})
+			leaves = append(leaves, leaf{typeShort(id.Type) + "." + id.Field, conds, curEmpties})
 			return
 		}
-		leaves = append(leaves, leaf{g.desc(v), conds})
+		leaves = append(leaves, leaf{"?:" + g.desc(v), conds, curEmpties})
 	}
 	if len(pre) > 0 {
 		for _, l := range pre {
 			if l.Zero {
-				leaves = append(leaves, leaf{"const:", l.Conds})
+				leaves = append(leaves, leaf{"const:", l.Conds, nil})
 			} else {
 				walk(l.Val, l.Conds, 0)
 			}
@@ -879,6 +899,12 @@ func (x *c01Ctx) keyNameChoiceG(g *cGraph, cons, pos string, v CV, pre []cgLeaf,
 	}
 	seenSrc := map[string]bool{}
 	bad := ""
+	for _, lf := range leaves {
+		if strings.HasPrefix(lf.src, "?:") {
+			r.Undecide("C01.R8: %s: one of the values it may take (%s) is produced in a way the choice analysis does not model", cons, lf.src[2:])
+			return
+		}
+	}
 	for _, lf := range leaves {
 		var ch *c01Choice
 		for i := range choices {
@@ -895,6 +921,13 @@ func (x *c01Ctx) keyNameChoiceG(g *cGraph, cons, pos string, v CV, pre []cgLeaf,
 			continue
 		}
 		ok := false
+		if ch.underEmpty {
+			for _, ev := range lf.empties {
+				if id, _, isF := c01AnyField(ev.V); isF && id.Field == ch.underField && (ch.underType == "" || typeShort(id.Type) == ch.underType) {
+					ok = true
+				}
+			}
+		}
 		for _, dc := range lf.conds {
 			c, br := g.stripNot(dc.Cond, dc.Branch)
 			if ch.underBool {
@@ -971,13 +1004,8 @@ func (x *c01Ctx) pushbackG(d *c01Dir) {
 		}
 	}
 	// values the segment stream may hold
-	vals := []CV{segStream}
-	if lv, ok := g.loadVals(segStream); ok {
-		vals = nil
-		for _, v := range lv {
-			vals = append(vals, g.res(v))
-		}
-	}
+	// (through variables, helper results, phis: all its origins)
+	vals := g.sources(segStream)
 	var mr CV
 	for _, v := range vals {
 		if c, ok := v.V.(*ssa.Call); ok && callIs(c, "io", "", "MultiReader") {
@@ -1148,7 +1176,7 @@ func (x *c01Ctx) headerG(e, d *c01Dir) {
 			return
 		}
 		isWrite := callIs(c, "io", "PipeWriter", "Write") || (c.Call.IsInvoke() && c.Call.Method.Name() == "Write")
-		if !isWrite || e.driver.Body[n] || !g.dominates(n, e.opNode) {
+		if !isWrite || e.driver.Body[n] || !(g.dominates(n, e.opNode) || g.tableBefore(n, e.opNode)) {
 			return
 		}
 		if g.res(CV{n.C, c.Call.Value}) == g.res(CV{e.op.C, e.op.V.(*ssa.Call).Call.Value}) {
@@ -1219,7 +1247,7 @@ func (x *c01Ctx) headerG(e, d *c01Dir) {
 		r.Undecide("C01.R4: cannot determine how many bytes the header reader under Decrypt is willing to scan (Read window without constant end)")
 		return
 	}
-	x.headerSizeLimit(signFn, scan)
+	x.headerSizeLimitG(e, hdrWrite, hdrVal, scan)
 }
 
 func (x *c01Ctx) base64G(d *c01Dir) {
@@ -1444,4 +1472,112 @@ func (x *c01Ctx) headerLayoutConcat(e *c01Dir, hdrVal CV, signFn *ssa.Function) 
 	hasNL := last.isConst() && last.Const == "\n"
 	r.Check(hasMsg && hasMAC && hasNL, c01R3, cons, x.p.Pos(signFn.Pos()), "MACed message || base64(MAC) || LF",
 		fmt.Sprintf("the signed header is not the MACed message (%v) || base64 MAC (%v) || final line feed (%v): the README says each of the three header items is terminated by 0x0A and the payload starts right after the third", hasMsg, hasMAC, hasNL))
+}
+
+// headerSizeLimitG (R4): on every path to the write of the header a limit on the length of the COMPLETE header
+// holds, and it does not exceed what the header reader scans — wherever the test sits (builder, caller, helper).
+func (x *c01Ctx) headerSizeLimitG(e *c01Dir, hdrWrite, hdrVal CV, scan int64) {
+	r, g := x.r, e.g
+	cons := "header size limit: writer vs reader scan limit"
+	wn := g.nodeOf(hdrWrite.C, hdrWrite.V.(*ssa.Call))
+	pos := g.pos(hdrWrite)
+	hdrSrc := g.srcSet(g.sources(hdrVal))
+	full, fullOK := g.sliceLenLin(hdrVal, 0)
+	hdrCone := g.cone(hdrVal)
+	isFull := func(ev CV) bool {
+		l := g.lin(ev)
+		if fullOK && l == full && !l.isConst() {
+			return true
+		}
+		if c, ok := l.Base.V.(*ssa.Call); ok && l.K == 0 && builtinName(c) == "len" && len(c.Call.Args) == 1 {
+			arg := CV{l.Base.C, c.Call.Args[0]}
+			if al, ok := g.sliceLenLin(arg, 0); ok && fullOK && al == full {
+				return true
+			}
+			as := g.srcSet(g.sources(arg))
+			if len(as) > 0 && sameSet(as, hdrSrc) {
+				// same buffer: a window of it is not the whole header, the value itself is
+				return g.sliceLowZero(arg, 0) && !g.hasHigh(arg)
+			}
+		}
+		return false
+	}
+	isPart := func(ev CV) bool {
+		l := g.lin(ev)
+		c, ok := l.Base.V.(*ssa.Call)
+		if !ok || l.K != 0 || builtinName(c) != "len" || len(c.Call.Args) != 1 {
+			return false
+		}
+		arg := g.deep(CV{l.Base.C, c.Call.Args[0]})
+		for _, sv := range g.sources(arg) {
+			if hdrCone[sv] {
+				return true
+			}
+		}
+		return hdrCone[arg]
+	}
+	verdict, why := "", ""
+	for _, dc := range g.condsThrough(wn) {
+		cmp, ok := g.decode(dc.Cond, dc.Branch)
+		if !ok {
+			continue
+		}
+		ev, kv, op := cmp.X, cmp.Y, cmp.Op
+		if _, isK := g.constInt(ev); isK {
+			ev, kv, op = kv, ev, c01FlipOp(op)
+		}
+		k, isK := g.constInt(kv)
+		if !isK {
+			continue
+		}
+		switch op {
+		case token.LEQ:
+		case token.LSS:
+			k--
+		default:
+			continue
+		}
+		switch {
+		case isFull(ev):
+			if k <= scan {
+				if verdict != "bad-full" {
+					verdict, why = "ok", fmt.Sprintf("complete header limited to %d bytes <= %d scanned by the header reader", k, scan)
+				}
+			} else if verdict != "ok" {
+				verdict, why = "bad-full", fmt.Sprintf("the header writer lets headers of up to %d bytes through but the header reader only scans the first %d bytes: Encrypt emits documents whose MAC line Decrypt never finds", k, scan)
+			}
+		case isPart(ev):
+			if verdict == "" && k < scan {
+				verdict = "part-unknown"
+			}
+			if (verdict == "" || verdict == "part-unknown") && k >= scan {
+				verdict, why = "bad", fmt.Sprintf("the size limit (%d) is applied to only a part of the header (not to the complete buffer that is written: message + base64 MAC + final newline); headers of up to %d bytes plus the MAC line pass, but the header reader only scans the first %d bytes, so Encrypt emits documents that Decrypt rejects ('message authentication code not found') instead of refusing them", k, k, scan)
+			}
+		}
+	}
+	switch verdict {
+	case "ok":
+		r.OK(c01R4, cons, pos, why)
+	case "bad", "bad-full":
+		r.Violation(c01R4, cons, pos, why)
+	case "part-unknown":
+		r.Undecide("C01.R4: the header writer limits only a part of the header to less than the reader's scan limit; whether the complete header fits is not decided")
+	default:
+		r.Violation(c01R4, cons, pos, fmt.Sprintf("no limit on the length of the header (or of a part of it) holds on the way to its write, but the header reader only scans the first %d bytes: with a long key name / wrapped key Encrypt emits documents that Decrypt rejects instead of refusing them", scan))
+	}
+}
+
+// hasHigh: slice value v is (on some origin) a window cut with an explicit upper bound.
+func (g *cGraph) hasHigh(v CV) bool {
+	v = g.deep(v)
+	if edges, ok := g.phiEdges(v); ok {
+		for _, e := range edges {
+			if g.hasHigh(e.Val) {
+				return true
+			}
+		}
+		return false
+	}
+	sl, ok := v.V.(*ssa.Slice)
+	return ok && sl.High != nil
 }
